@@ -626,6 +626,56 @@ class SimEvent:
         return self.flag
 
 
+class SimLock:
+    """threading.Lock semantics (non-reentrant)."""
+
+    def __init__(self, kernel=None):
+        self.k = kernel or _default_kernel()
+        self._locked = False
+        self.waiters = []
+
+    def locked(self):
+        return self._locked
+
+    def acquire(self, blocking=True, timeout=-1):
+        k = self.k
+        if not self._locked:
+            self._locked = True
+            return True
+        if not blocking:
+            return False
+        if k.current is None:
+            raise HarnessError('blocking Lock.acquire from kernel context')
+        deadline = None if timeout is None or timeout < 0 else \
+            k.now + timeout
+        while self._locked:
+            me = k.current
+            self.waiters.append(me)
+            r = k.block(None if deadline is None else
+                        max(0.0, deadline - k.now), 'lock.acquire')
+            if me in self.waiters:
+                self.waiters.remove(me)
+            if r == 'timeout' and self._locked:
+                return False
+        self._locked = True
+        return True
+
+    def release(self):
+        if not self._locked:
+            raise RuntimeError('release unlocked lock')
+        self._locked = False
+        for th in list(self.waiters):
+            self.k.wake(th, 'lock')
+
+    def __enter__(self):
+        self.acquire()
+        return self
+
+    def __exit__(self, *exc):
+        self.release()
+        return False
+
+
 def sim_sleep(seconds=0, kernel=None):
     k = kernel or _default_kernel()
     if k.current is None:
